@@ -15,6 +15,7 @@ PROFILES = {
     "struct": (["Leaf", "Unary", "Many", "Opt"], {("Leaf", "a"): {0, 1}}, 3, 4, 2),
     "falsy": (["Leaf", "FLeaf", "FUnary", "Bin", "Pair"], {}, 3, 4, 2),
     "inherit": (["Leaf", "SubLeaf", "SubMany"], {}, 3, 3, 2),
+    "inherit-kid": (["Leaf", "KLeaf", "Unary"], {}, 3, 4, 1),
 }
 GATHER = [frozenset({"Leaf"}), frozenset({"ASTNode"}), frozenset({"Many", "Unary"}),
           frozenset({"SubLeaf", "Bin"})]
